@@ -65,6 +65,8 @@ func (o c09op) String() string {
 		return fmt.Sprintf("Update(%s,len=%d)", o.Key, o.Len)
 	case "get", "reserved":
 		return fmt.Sprintf("%s(%s)", o.Op, o.Key)
+	case "recap":
+		return fmt.Sprintf("WithCacheSize(%d)", o.Len)
 	}
 	return o.Op
 }
@@ -177,6 +179,10 @@ func runC09Seq(capacity uint32, ops []c09op, c *vk.Ctx) (string, string) {
 				ks := ca.Keys(ca.Levels() - 1)
 				sort.Strings(ks)
 				rval = strings.Join(ks, ",")
+			case "recap":
+				// the capacity of a live cache is set again (WithCacheSize on a cache that holds content), possibly
+				// below what is in use
+				ca = ca.WithCacheSize(uint32(op.Len))
 			case "flushsave":
 				// the cache is held by a persister created WithFlush: after Save it is empty, and still the same cache
 				rerr = persist.NewPersister(c09Store()).WithFlush().WithContent(state.NewState(0), ca).Save("s")
@@ -202,8 +208,8 @@ func runC09Seq(capacity uint32, ops []c09op, c *vk.Ctx) (string, string) {
 				reject = "dup"
 			} else if op.Limit > 0 && op.Len > op.Limit {
 				reject = "overlimit"
-			} else if ref.cap > 0 && ref.use()+uint64(op.Len) > uint64(ref.cap) {
-				reject = "overcapacity"
+			} else if ref.cap > 0 && op.Len > 0 && ref.use()+uint64(op.Len) > uint64(ref.cap) {
+				reject = "overcapacity" // an empty value cannot exceed anything, also when a lowered capacity is already exceeded
 			}
 			if reject != "" {
 				c.Count("rejects_expected_"+reject, 1)
@@ -225,7 +231,7 @@ func runC09Seq(capacity uint32, ops []c09op, c *vk.Ctx) (string, string) {
 				reject = "undefined"
 			} else if lim := ref.limits[op.Key]; lim > 0 && op.Len > int(lim) {
 				reject = "overlimit"
-			} else if ref.cap > 0 && ref.use()-uint64(len(ref.frames[fr][op.Key]))+uint64(op.Len) > uint64(ref.cap) {
+			} else if ref.cap > 0 && op.Len > 0 && ref.use()-uint64(len(ref.frames[fr][op.Key]))+uint64(op.Len) > uint64(ref.cap) {
 				reject = "overcapacity"
 			}
 			if reject != "" {
@@ -282,6 +288,8 @@ func runC09Seq(capacity uint32, ops []c09op, c *vk.Ctx) (string, string) {
 				}
 			}
 			ref.frames = ref.frames[:1]
+		case "recap":
+			ref.cap = uint32(op.Len)
 		case "flushsave":
 			if rerr != nil {
 				return "flushsave:fails", where + ": " + rerr.Error()
@@ -357,11 +365,18 @@ func runC09Seq(capacity uint32, ops []c09op, c *vk.Ctx) (string, string) {
 		if uint64(after.Use) != sum {
 			return op.Op + ":use-mismatch:" + lc, fmt.Sprintf("%s: CacheUseSize %d, sum of values %d", where, after.Use, sum)
 		}
-		if after.Size != capacity {
+		if after.Size != ref.cap {
 			return op.Op + ":capacity-changed", where
 		}
-		if capacity > 0 && sum > uint64(capacity) {
-			return op.Op + ":over-capacity:" + lc, fmt.Sprintf("%s: holds %d bytes, capacity %d", where, sum, capacity)
+		var sumBefore uint64
+		for _, f := range before.Frames {
+			for _, v := range f {
+				sumBefore += uint64(len(v))
+			}
+		}
+		// content may exceed a capacity that was lowered afterwards, but no operation may grow it beyond the capacity
+		if ref.cap > 0 && sum > uint64(ref.cap) && sum > sumBefore {
+			return op.Op + ":over-capacity:" + lc, fmt.Sprintf("%s: holds %d bytes (%d before), capacity %d", where, sum, sumBefore, ref.cap)
 		}
 		for k := range after.Sizes {
 			if _, live := seen[k]; !live {
@@ -468,7 +483,12 @@ func genC09Seq(r *vk.RNG) (uint32, []c09op) {
 		case x < 98:
 			ops = append(ops, c09op{Op: "keys"})
 		case x < 99:
-			ops = append(ops, c09op{Op: "flushsave"})
+			if r.Chance(1, 2) {
+				nc := vk.Pick(r, []int{0, 1, 5, 20, 64, 1000, 70000})
+				ops = append(ops, c09op{Op: "recap", Len: nc})
+			} else {
+				ops = append(ops, c09op{Op: "flushsave"})
+			}
 		default:
 			ops = append(ops, c09op{Op: "saveload"})
 		}
@@ -507,7 +527,7 @@ func C09() *vk.Check {
 	return &vk.Check{
 		ID:    "C09",
 		Level: "exploration",
-		Rule: "lock-step of cache.Cache against a reference cache (list of maps + limits + capacity). Cases: (1) every operation sequence of length<=5 (quick) / <=6 (thorough) over a 9-operation alphabet, for capacity 0 and capacity 10, enumerated exhaustively (distinct by construction); (random sequences also hand the cache to a persister: a flushing Save must leave it empty with its capacity, a Save/Load round trip through one persister must change nothing); " +
+		Rule: "lock-step of cache.Cache against a reference cache (list of maps + limits + capacity). Cases: (1) every operation sequence of length<=5 (quick) / <=6 (thorough) over a 9-operation alphabet, for capacity 0 and capacity 10, enumerated exhaustively (distinct by construction); (random sequences also hand the cache to a persister: a flushing Save must leave it empty with its capacity, a Save/Load round trip through one persister must change nothing; the capacity of the live cache is set again, also below what is in use: nothing may grow the content beyond the capacity in force); " +
 			"(2) PRNG sequences of 3..60 ops over Add/Update/Get/Push/Pop/Reset/Last/ReservedSize/Levels/Keys, 3-5 keys, lengths in BYTES {0,1,limit-1,limit,limit+1,255,256,65535..65537,65536+limit,70000,131072+limit,random}, a third of the values made of multi-byte UTF-8 characters, limits 0..65535, capacities {0,1,small,medium,~64k..140k}. " +
 			"distinct = hash of (capacity, full op list); non-trivial = at least two mutating ops (add/update/pop/reset).",
 		Assumptions: []string{
